@@ -232,7 +232,8 @@ func C11() int {
 		"and a query Q ∈ {*, stats count, a=1, stats count by a, sort a}. With every sync import of /repo/pkg redirected to a shim, one party's goroutine tree is held at its k-th lock operation for every k " +
 		"(k = 1..number of lock operations observed in an unpaused run) while the other party runs to completion (if it has to wait for a lock the held goroutine owns, the held one is released first), in both " +
 		"directions. Checked per schedule: no crash, no deadlock; the query returns e1 exactly once and e2 at most once (counts 1..2, never doubled or lost); after both finished the contents equal the sequential " +
-		"result. non-trivial = schedules in which the pause point was reached"
+		"result. two writers: an ingest (e1) into a new index / an index holding a flushed e0 held at every lock operation while a second writer runs {ingest e2; +flush; flush; rotate; ingest+flush+rotate} " +
+		"on the same index: after a final flush every acknowledged event is searchable exactly once. non-trivial = schedules in which the pause point was reached"
 	rep.Assume = []string{"preemption bound 1 at lock-operation granularity with an atomic other party (level B of the design); operations ordered only by sync/atomic or channels are not scheduling points",
 		"unsynchronised accesses are invisible to this engine (a free-running -race pass over the same bodies is the separate check for data races)"}
 	budget := kernel.NewBudget(map[string]time.Duration{"quick": 170 * time.Second, "thorough": 40 * time.Minute}[rep.Tier])
@@ -295,12 +296,20 @@ func C11() int {
 		Nontrivial: func(j *c11Job) bool { return false },
 	}
 	d.Drive()
+	c11TwoWriters(rep, pool, budget)
 	return rep.Finish()
 }
 
 func init() {
 	Registry["C11"] = C11
 	Replayers["C11"] = func(doc json.RawMessage) int {
+		var probe struct {
+			Other string `json:"other"`
+		}
+		_ = json.Unmarshal(doc, &probe)
+		if probe.Other != "" {
+			return MakeReplayer[c11WWJob]("C11", "model_checking", logPool, c11WWRun)(doc)
+		}
 		return MakeReplayer[c11Job]("C11", "model_checking", logPool, c11Run)(doc)
 	}
 }
